@@ -4,6 +4,8 @@ import (
 	"fmt"
 	"strings"
 
+	"kyverif/internal/core"
+
 	"kyverif/internal/efx"
 )
 
@@ -103,6 +105,20 @@ func both(fs ...func(c *Ctx)) func(c *Ctx) {
 	}
 }
 
+// shuffle verifiers / sequence reduction do not write the ciphertext lists they are given
+func roTargetsForShuffle(c *Ctx) {
+	p := c.Prog("default")
+	if p == nil {
+		return
+	}
+	an := efx.NewAnalyzer(p)
+	for _, n := range []string{"shuffle.GetSequenceVerifiable", "shuffle.Verifier", "shuffle.BiffleVerifier", "shuffle.Shuffle", "shuffle.SequencesShuffle", "shuffle.Biffle"} {
+		if fn := p.Fn(n); fn != nil && len(fn.Blocks) > 0 {
+			roCheck(c, p, an, fn, "EFX-RO", nil)
+		}
+	}
+}
+
 func fresh(pre ...string) func(c *Ctx) { return func(c *Ctx) { CheckFreshRet(c, pre) } }
 func ptreq(pk ...string) func(c *Ctx) { return func(c *Ctx) { PointerEquality(c, "default", pk) } }
 
@@ -110,7 +126,7 @@ func loopShare(pk ...string) func(c *Ctx) { return func(c *Ctx) { LoopShare(c, "
 
 func init() {
 	stale := func(pk ...string) func(c *Ctx) { return func(c *Ctx) { StaleResults(c, "default", pk) } }
-	extraRules["C15"] = both(stale("shuffle", "proof"), loopShare("shuffle"))
+	extraRules["C15"] = both(stale("shuffle", "proof"), loopShare("shuffle"), func(c *Ctx) { CheckMustWrite(c, "C15") }, fresh("shuffle."), roTargetsForShuffle)
 	roTargetsFor := func(names ...string) func(c *Ctx) {
 		return func(c *Ctx) {
 			p := c.Prog("default")
@@ -166,6 +182,12 @@ func init() {
 				s := an.Summary(fn)
 				indep(c, p, it.Named, shortFn(fn), p.FnPos(fn), s, "R0")
 				roCheck(c, p, an, fn, "EFX-RO", nil)
+			}
+			// the constructor keeps no reference into the caller's seed buffer
+			ctor := p.Fn(core.Short(it.Named.Obj().Pkg().Path()) + ".New")
+			if ctor != nil && len(ctor.Blocks) > 0 {
+				s := an.Summary(ctor)
+				indep(c, p, it.Named, shortFn(ctor), p.FnPos(ctor), s, "R0")
 			}
 			for _, m := range []string{"Write", "Reseed"} {
 				if fn := p.Method(it.Named, m); fn != nil && len(fn.Blocks) > 0 {
